@@ -30,10 +30,16 @@ def gen_files(ctx, label, n):
                               final_newline=rng.random() < 0.8)
         if k % 9 == 4:
             text = text.replace('\n', '\r\n')          # DOS line ends (read through Python's universal newlines)
-        yield dict(text=text, na=ast['na'], twopl=twopl, ast=ast, messy=messy)
+        # further valid options on the command line must not influence how the file is read
+        extra = EXTRA_ARGV[k % len(EXTRA_ARGV)] if k % 2 == 1 else []
+        yield dict(text=text, na=ast['na'], twopl=twopl, ast=ast, messy=messy, extra=extra)
         if k % 3 == 0:
             # the same unchanged file read again under the other -twopl setting
-            yield dict(text=text, na=ast['na'], twopl=not twopl, ast=ast, messy=messy)
+            yield dict(text=text, na=ast['na'], twopl=not twopl, ast=ast, messy=messy, extra=extra)
+
+
+EXTRA_ARGV = [['-maxsize', '1'], ['-mincost', '1', '1', '2'], ['-pc'], ['-minsqcost', '3', '0', '1', '-maxsize', '1'],
+              ['-bf'], ['-mincostlsb', '2', '1', '3', '-gen', '1', '2'], ['-lsb', '9', '-pc'], ['-gre', '4', '0']]
 
 
 MALFORMED = [
@@ -56,7 +62,8 @@ class Import(Relation):
     shard = 60
     describe = ('files rendered from random ASTs of the documented grammar (2- and 3-agent, ties anywhere, empty lists, '
                 'zero capacities, lower quotas, shared lecturers), half with arbitrary inter-token blanks/tabs and leading '
-                'zeros, with/without trailer and final newline, loaded with and without -twopl; plus a malformed stream; '
+                'zeros, with/without trailer and final newline, loaded with and without -twopl, half of them with further valid '
+                'options (criteria with extra arguments, -pc, -bf) on the command line; plus a malformed stream; '
                 'all Model attributes, pairs and the three derived lists compared; non-trivial = at least one tie group and '
                 'at least two students')
 
@@ -67,7 +74,7 @@ class Import(Relation):
             yield dict(m, ast=None, messy=False)
 
     def observe(self, inp):
-        return C.observe(impl.import_snapshot, inp['text'], inp['na'], inp['twopl'])
+        return C.observe(impl.import_snapshot, inp['text'], inp['na'], inp['twopl'], inp.get('extra') or [])
 
     def term(self, inp, obs):
         def enc(s):
